@@ -149,6 +149,23 @@ P('C15',
   thorough=dict(cases=8000000, max_size=5000, max_seconds=1500, fuzz=dict(seconds=240, jobs=8, max_len=5000)),
   )
 
+P('C02',
+  technique='property-based testing: generated Teletext networks and packet-level schedules through the real decoder; oracle = page assembly model + independent Level 1 display model (EN 300 706 sec. 12.2, Table 36), event log',
+  rule='network = serial or parallel mode, 1-8 magazines x 1-4 pages (BCD 100-899, subpage 0 or 01-79, national option 0-6, C5/C6 sometimes), rows '
+       'from a grammar of text and interacting spacing attributes, optional X/27/0; schedule = packet-level interleaving of the magazines, permuted / '
+       'omitted rows, time filling headers, 2-4 cycles with edited rows and toggled erase flag, 1-16 packets per frame. Non-trivial: (>= 2 magazines '
+       'interleaved at packet level or a no-erase retransmission with a changed and an omitted row) and a row with interacting spacing attributes; '
+       'distinct = hash of consumed choices.',
+  level_text='Generated-schedule search with an explicit oracle: at every point where a page must be complete (next header of its own magazine) '
+             'the page is fetched at levels 1, 1.5, 2.5 and 3.5 and every cell of rows 1-23 and header columns 8-39 is compared (character through '
+             'the national sub-set, foreground, background, flash, conceal, size incl. lower double-height rows, boxing on C5/C6 pages), plus page / '
+             'subpage number, FLOF links, exactly one page event per transmission, wildcard fetch returns the subpage just received. Sampling only.',
+  level_note='Trusted: models/ttx_model.h (Table 26 set-at / set-after rules, held mosaic reset rule, national sub-sets of region 16). ESC (second G0 set) and national option 7 (not allocated) are not generated; blank mosaic and space are treated as equal.',
+  design_ref='DESIGN.md section 2, C02',
+  quick=dict(cases=30000, max_size=12000, max_seconds=200),
+  thorough=dict(cases=1200000, max_size=12000, max_seconds=1800, fuzz=dict(seconds=300, jobs=8, max_len=12000)),
+  )
+
 NOT_YET = {}
 
 
